@@ -118,7 +118,7 @@ pub fn case_strategy() -> impl Strategy<Value = Case> {
 
 pub fn run(ctx: &mut Ctx) {
     ctx.stage("random");
-    let cases = ctx.pick(30_000u32, 600_000u32) / ctx.nshards;
+    let cases = ctx.pick(300_000u32, 2_000_000u32) / ctx.nshards;
     ctx.run_prop(case_strategy(), cases, |ctx, c| oracle(ctx, c));
 }
 
